@@ -32,6 +32,102 @@ def retry_calls(c):
     return Q.find_calls(c, lambda k, p: p.endswith("utils::retry_on_timeout"))
 
 
+def retry_shape(c, f):
+    """D3 on the canonical term of retry_on_timeout (sym.py): exactly one loop; the closure is applied exactly once per
+    iteration, unconditionally; the number of iterations is bounded by count+1 - derived from the loop's counter
+    (down from count+1 to 0, up from 0 to count+1, or a range over it), whatever the loop is written like"""
+    from .. import sym as SY
+    sy = SY.Sym(c, lambda p: False, None)
+    eff = sy.run_unit(f)
+    pr = SY.Printer(sy)
+    out = []
+    loops = [e for e in eff if e[0] == "loop"]
+    nested = []
+
+    def walk(es, depth, acc):
+        for e in es:
+            if e[0] == "op" and sy.ops[e[1]].name == "apply":
+                acc.append((depth, e))
+            elif e[0] == "if":
+                walk(e[2], depth + 1, acc); walk(e[3], depth + 1, acc)
+            elif e[0] == "guard":
+                walk(e[2], depth + 1, acc)
+            elif e[0] == "match":
+                for arm in e[2]:
+                    walk(arm[2], depth + 1, acc)
+            elif e[0] == "loop":
+                nested.append(e)
+                walk(e[5], depth + 1, acc)
+    outside = []
+    walk([e for e in eff if e[0] != "loop"], 0, outside)
+    out.append(("loop", len(loops) == 1, "%d top-level loop(s) in retry_on_timeout (expected one)" % len(loops)))
+    if len(loops) != 1:
+        return out
+    lp = loops[0]
+    _, lid, kind, header, inits, body, at = lp
+    n_nested = len(nested)
+    inside = []
+    walk(body, 0, inside)
+    ok_fetch = len(inside) == 1 and inside[0][0] == 0 and not outside and len(nested) == n_nested
+    out.append(("one-fetch", ok_fetch, "closure applications: %d in the loop body (%s), %d outside the loop" % (
+        len(inside), "unconditional" if inside and inside[0][0] == 0 else "conditional", len(outside))))
+    if inside:
+        args = sy.ops[inside[0][1][1]].args
+        out.append(("fetch-is-the-argument", len(args) == 1 and args[0] == ("param", 1), "applied value: %s" % pr.show(args[0])))
+    # trip count
+    R1 = ("r+1", ["usize::saturating_add(a0, 1)", "(1 Add a0)", "usize::wrapping_add(a0, 1)"])
+    bound = None
+    why = ""
+    if kind == "for" and header is not None:
+        h = pr.show(header)
+        if header[0] == "range" and header[2] == ("lit", "0") and header[3] is not None and "Inclusive" not in header[1]:
+            bound, why = pr.show(header[3]), "for over 0..N"
+        elif header[0] == "range" and header[2] == ("lit", "0") and header[3] == ("param", 0) and "Inclusive" in header[1]:
+            bound, why = "(1 Add a0)", "for over 0..=count"
+        elif header[0] == "range" and header[2] == ("lit", "1") and header[3] is not None and "Inclusive" in header[1]:
+            bound, why = pr.show(header[3]), "for over 1..=N"
+        else:
+            why = "for over %s" % h
+    else:
+        guards = [e for e in body if e[0] == "guard"]
+        first = body[0] if body else None
+        nexts = []
+
+        def collect(es):
+            for e in es:
+                if e[0] == "next":
+                    nexts.append(e)
+                elif e[0] == "if":
+                    collect(e[2]); collect(e[3])
+                elif e[0] == "guard":
+                    collect(e[2])
+                elif e[0] == "match":
+                    for arm in e[2]:
+                        collect(arm[2])
+        collect(body)
+        if first is not None and first[0] == "guard" and len(first[2]) == 1 and first[2][0][0] == "break":
+            cond = first[1]
+            init = dict(inits)
+            for i in init:
+                phi = ("phi", lid, i)
+                ups = [dict(nx[2]).get(i, phi) for nx in nexts]
+                if not ups:
+                    continue
+                if cond == ("bin", "Lt", ("lit", "0"), phi) and all(u == ("bin", "Sub", phi, ("lit", "1")) for u in ups):
+                    bound, why = pr.show(init[i]), "counts down from N while > 0"
+                elif cond[0] == "bin" and cond[1] == "Lt" and cond[2] == phi and init[i] == ("lit", "0") and \
+                        all(u in (("bin", "Add", ("lit", "1"), phi), ("bin", "Add", phi, ("lit", "1"))) for u in ups) and "L%d" not in pr.show(cond[3]):
+                    bound, why = pr.show(cond[3]), "counts up from 0 while < N"
+                elif cond == ("bin", "Ne", ("lit", "0"), phi) and all(u == ("bin", "Sub", phi, ("lit", "1")) for u in ups):
+                    bound, why = pr.show(init[i]), "counts down from N while != 0"
+        if bound is None:
+            why = "loop guard %s with counters %s" % (pr.show(first[1]) if first is not None and first[0] == "guard" else "<none>",
+                                                    [(i, pr.show(v)) for i, v in inits])
+    ok = bound in R1[1]
+    out.append(("attempts", ok, "iterations bounded by %s (%s); expected count+1 => at most r+1 attempts" % (bound, why)))
+    return out
+
+
 def run(tier, config):
     rep = Report("C10")
     c = K.crate("gamedig-lib", config)
@@ -159,22 +255,9 @@ def run(tier, config):
         f = rf[0]
         b = Body(f)
         ls = L.classify(c, g, f)
-        ok = len(ls) == 1 and ls[0].cls == "d:counter"
-        rep.add("gamedig::utils::retry_on_timeout|loop", "C10:D3", ok, "loops: %s" % [(x.cls, x.detail) for x in ls], f["span"])
-        # counter start = count + 1 outside the loop, step -1 inside
-        ups = []
         body_blocks = ls[0].body if ls else set()
-        for (bi, si, rv, proj) in b.defs().get(1, []):
-            ups.append((bi in body_blocks, b.render_rvalue(rv, 4, names=False)))
-        outside = [r for inl, r in ups if not inl]
-        inside = [r for inl, r in ups if inl]
-        ok_out = outside in (["(arg1 + 1usize).0"], ["num::saturating_add(arg1, 1usize)"], ["usize::saturating_add(arg1, 1usize)"], ["(var:usize + 1usize).0"], ["usize::saturating_add(var:usize, 1usize)"], ["num::saturating_add(var:usize, 1usize)"])
-        ok_in = inside in (["(arg1 - 1usize).0"], ["(var:usize - 1usize).0"])
-        rep.add("gamedig::utils::retry_on_timeout|attempts", "C10:D3", ok_out and ok_in,
-                "counter updates outside loop %s, inside loop %s (expected +1 once, -1 per iteration => at most r+1 attempts)" % (outside, inside), f["span"])
-        fetches = [bi for bi, t, k in Q.calls(f) if k.startswith("FnMut::call_mut")]
-        okf = len(fetches) == 1 and fetches[0] in body_blocks and all(b.dominates(fetches[0], x) for x in body_blocks if ls and ls[0].head in b.succ[x])
-        rep.add("gamedig::utils::retry_on_timeout|one-fetch", "C10:D3", okf, "fetch call sites: %s" % fetches, f["span"])
+        for key, ok, detail in retry_shape(c, f):
+            rep.add("gamedig::utils::retry_on_timeout|" + key, "C10:D3", ok, detail, f["span"])
         kinds = sorted({v for (ff, bi, v, at) in Q.enum_values(c, "gamedig::errors::kind::GDErrorKind") if ff["path"] == f["path"]})
         rep.add("gamedig::utils::retry_on_timeout|kinds", "C10:D3", kinds == ["PacketReceive", "PacketSend"],
                 "error kinds named in the helper: %s (expected exactly PacketReceive, PacketSend)" % kinds, f["span"])
